@@ -411,7 +411,7 @@ ALPHABETS = {
     "full": E.TOKEN_ALPHABET,
     "core": E.TOKEN_ALPHABET_CORE,
     "mini": ("a", "(", ")", "0", "**", "/", "-", ":"),
-    "quote": ("a", "{", "}", "f(", ")", '"', "'", "`"),
+    "quote": ("a", "{", "}", "f(", ")", '"', "'", "`", "\n\t"),
 }
 
 
@@ -454,6 +454,173 @@ def w_repeat(args):
     return ("repetitions", acc.result())
 
 
+# ---- histories: used, re-configured, used again ---------------------------------------------
+FLAG_SUBSETS = [tuple(sorted(c)) for r in range(4) for c in __import__("itertools").combinations(("MULTIPART", "MULTISTAGE", "TWOSIDED"), r)]
+HISTORY_PROBES = (
+    "a", "a + b:c", "~ x", "y ~ x", "y ~ x + z", "x | z", "a | b | c", "y ~ x | z", "y | w ~ x", "y | w ~ x | z", "~ x | z",
+    "[a ~ b]", "y ~ [a ~ b]", "y ~ [a ~ b] + c", "y ~ [a ~ b | c]", "[a ~ b] | c", "y ~ [a + b ~ c] | d",
+    "(a ~ b)", "a ~ b ~ c", "y ~ (x | z)", "a | ~ b", "[a]", "[a | b]", "y ~ x | [a ~ b]",
+)
+
+HISTORY_REPRO = '''from formulaic.parser import DefaultFormulaParser
+from formulaic.parser.parser import DefaultOperatorResolver
+from formulaic.errors import FormulaParsingError
+FF = DefaultFormulaParser.FeatureFlags
+def flags(names):
+    v = FF.NONE
+    for n in names:
+        v |= getattr(FF, n)
+    return v
+def outcome(parser, s):
+    try:
+        return ("returned", repr(parser.get_terms(s)))
+    except FormulaParsingError:
+        return ("parsing-error",)
+    except Exception as e:
+        return (type(e).__name__,)
+before, after, scenario, warmup, s = {before!r}, {after!r}, {scenario!r}, {warmup!r}, {s!r}
+if scenario == "parser.set_feature_flags":
+    parser = DefaultFormulaParser(include_intercept={intercept!r}, feature_flags=flags(before))
+    for w in warmup: outcome(parser, w)
+    parser.set_feature_flags(flags(after))
+elif scenario == "resolver.set_feature_flags":
+    parser = DefaultFormulaParser(include_intercept={intercept!r}, feature_flags=flags(before))
+    for w in warmup: outcome(parser, w)
+    parser.operator_resolver.set_feature_flags(flags(after))
+else:  # a used resolver handed to a new parser
+    old = DefaultFormulaParser(include_intercept={intercept!r}, feature_flags=flags(before))
+    for w in warmup: outcome(old, w)
+    parser = DefaultFormulaParser(operator_resolver=old.operator_resolver, include_intercept={intercept!r}, feature_flags=flags(after))
+fresh = DefaultFormulaParser(include_intercept={intercept!r}, feature_flags=flags(after))
+assert outcome(parser, s) == outcome(fresh, s), (s, outcome(parser, s), outcome(fresh, s))
+'''
+
+
+def _flags_value(names):
+    from formulaic.parser import DefaultFormulaParser
+
+    FF = DefaultFormulaParser.FeatureFlags
+    v = FF.NONE
+    for n in names:
+        v |= getattr(FF, n)
+    return v
+
+
+def _outcome_sig(parser, s):
+    from formulaic.errors import FormulaParsingError
+
+    out = guarded(parser, s, PARSE_TIMEOUT_S)
+    if out[0] == "returned":
+        return ("returned", repr(out[1]))
+    if out[0] == "timeout":
+        return ("timeout",)
+    if isinstance(out[1], FormulaParsingError):
+        return ("parsing-error",)
+    return (type(out[1]).__name__,)
+
+
+def w_histories(args):
+    """A parser / resolver that has been used, is re-configured, and is used again must behave
+    like a freshly built parser with the new flags (in particular: newly disabled operators are
+    rejected), for every ordered pair of feature-flag subsets."""
+    shard, nshards = args
+    from formulaic.parser import DefaultFormulaParser
+
+    acc = Acc()
+    i = 0
+    for before in FLAG_SUBSETS:
+        for after in FLAG_SUBSETS:
+            for scenario in ("parser.set_feature_flags", "resolver.set_feature_flags", "used-resolver-in-new-parser"):
+                for intercept in (True, False):
+                    i += 1
+                    if i % nshards != shard:
+                        continue
+                    fresh = DefaultFormulaParser(include_intercept=intercept, feature_flags=_flags_value(after))
+                    old = DefaultFormulaParser(include_intercept=intercept, feature_flags=_flags_value(before))
+                    for w in HISTORY_PROBES:
+                        _outcome_sig(old, w)
+                    if scenario == "parser.set_feature_flags":
+                        parser = old.set_feature_flags(_flags_value(after))
+                    elif scenario == "resolver.set_feature_flags":
+                        old.operator_resolver.set_feature_flags(_flags_value(after))
+                        parser = old
+                    else:
+                        parser = DefaultFormulaParser(operator_resolver=old.operator_resolver, include_intercept=intercept, feature_flags=_flags_value(after))
+                    rel = "same" if before == after else ("narrowed" if set(after) < set(before) else ("widened" if set(after) > set(before) else "changed"))
+                    for s in HISTORY_PROBES:
+                        got, exp = _outcome_sig(parser, s), _outcome_sig(fresh, s)
+                        acc.n += 1
+                        acc.keys.add(_digest((before, after, scenario, intercept, s)))
+                        if len(acc.samples) < 2:
+                            acc.samples.append({"flags_before": list(before), "flags_after": list(after), "scenario": scenario, "string": s, "outcome": list(exp)[:1]})
+                        if got != exp:
+                            w = {
+                                "formula": s,
+                                "config": f"{scenario}: {list(before)} -> {list(after)}, include_intercept={intercept}",
+                                "flags_before": list(before),
+                                "flags_after": list(after),
+                                "scenario": scenario,
+                                "observed": list(got),
+                                "fresh_parser": list(exp),
+                                "code": HISTORY_REPRO.format(before=list(before), after=list(after), scenario=scenario, warmup=list(HISTORY_PROBES), s=s, intercept=intercept),
+                            }
+                            kind = "disabled-operator-still-accepted" if got[0] == "returned" and exp[0] == "parsing-error" else ("enabled-operator-still-rejected" if exp[0] == "returned" and got[0] == "parsing-error" else "differs")
+                            acc.fail("C14.flags.history", f"{scenario}/{rel}/{kind}", w, f"after {scenario} {list(before)} -> {list(after)} (parser used before), get_terms({s!r}) gives {got} but a fresh parser with the new flags gives {exp}")
+    return ("flag-histories", acc.result())
+
+
+# ---- valid Python of richer AST shapes in every position --------------------------------------
+def rich_fragments():
+    """(code, forms): valid Python expressions; 'brace' when the text holds no brace, 'call' when
+    it has the documented call shape name(...)... and ends with a closing bracket."""
+    primaries = ["y", "(y1 + y2)", "y['a']", "y[0]", "f(y)", "np.log(y)", "[y, z]", "(y, z)", "(lambda v: v + 1)", "scalers[0]", "y.a", "'s'", "(-y)", "(y if z else w)"]
+    postfix = [".abs()", ".a", "[0]", "['k']", "(z)", "(y)", ".m(z, k=1)", "[1:2]", ".T"]
+    codes = []
+    for p in primaries:
+        for q in postfix:
+            codes.append(p + q)
+            for q2 in (".cumsum()", "[0]", "(w)", ".b"):
+                codes.append(p + q + q2)
+    codes += [
+        "lambda v: v", "(lambda: y)()", "[v for v in y]", "[v for v in y if v > 0]", "sum(v for v in y)", "list(v + w for v in y for w in z)",
+        "y if z else w", "f(*y)", "f(**kw)", "f(y, *z, k=1, **kw)", "f(y)(z)(w)", "f(lambda v: v + 1, y)", "f(y if z else w)", "f(y)[g(z)]",
+        "f(f'{y}')", "f(f'{y:>{w}}')", "f(y, 'a b')", "f(b'x', 1j, 0x10, 1e-3, ...)", "y[...]", "y[::2, 1:]", "y[z > 0]", "y[(z > 0) & (w < 1)]",
+        "not y", "-y", "+y", "~y", "y ** 2", "y @ z", "y // z", "y % z", "y << 1", "y & z", "y ^ z", "y < z <= w", "y is not None", "y in z", "y not in (1, 2)",
+        "(v := y)", "f((v := y))", "y and z or w", "[*y, *z]", "f([*y])", "(yield_ := y)", "y.str.len()", "y.astype('float').fillna(0)", "np.where(y > 0, y, 0)",
+        "f({'k': y})", "f({v for v in y})", "f({k: v for k, v in y})", "f(y)[{1: 0}[1]]", "C(y, contr.treatment(base='a'))", "f(\"a\", 'b')",
+    ]
+    out = []
+    for code in dict.fromkeys(codes):
+        try:
+            tree = ast.parse(code, mode="eval")
+        except SyntaxError:
+            raise AssertionError(f"driver bug: {code!r} is not valid Python")
+        forms = []
+        if "{" not in code and "}" not in code:
+            forms.append("{" + code + "}")
+        if re.match(r"[A-Za-z_][\w.]*\(", code) and code[-1] in ")]" and isinstance(tree.body, (ast.Call, ast.Subscript)) and not re.search(r"[)\]]\s*\.", code):
+            forms.append(code)
+        out.append((code, forms))
+    return out
+
+
+FRAGMENT_CONTEXTS = ("{F}", "{F} ~ x", "y ~ {F}", "{F} + x ~ z", "x + {F} ~ z", "{F}:x ~ z", "y | {F} ~ x", "{F} | y ~ x", "y ~ x | {F}", "({F}):x", "x:{F}", "-{F}", "({F} + x) ~ z", "{F} ~ {F}", "~ {F}", "[{F} ~ x]", "y ~ [{F} ~ x]")
+
+
+def w_fragments(args):
+    shard, nshards = args
+    acc = Acc()
+    i = 0
+    for code, forms in rich_fragments():
+        for form in forms:
+            for tmpl in FRAGMENT_CONTEXTS:
+                i += 1
+                if i % nshards != shard:
+                    continue
+                check_string(acc, tmpl.replace("{F}", form))
+    return ("python-fragments", acc.result())
+
+
 def _run(task):
     fn, args = task
     return fn(args)
@@ -476,6 +643,10 @@ def run_bounded(ctx):
         tasks.append((w_random, (ctx.seed * 7919 + sh, nrand // 32, 12)))
     for sh in range(16):
         tasks.append((w_repeat, (sh, 16, (40, 400) if th else (40,))))
+    for sh in range(8):
+        tasks.append((w_histories, (sh, 8)))
+    for sh in range(8):
+        tasks.append((w_fragments, (sh, 8)))
     tasks.sort(key=lambda t: 0 if t[0] is w_repeat else 1)  # longest tasks first
 
     scope_txt = "; ".join(f"{len(ALPHABETS[a])}-token alphabet '{a}' up to {l} tokens" for a, l in scopes)
@@ -489,6 +660,23 @@ def run_bounded(ctx):
             bound=scope_txt,
         ),
         "random-characters": ctx.bounded("random-characters", rule="seeded random strings over a 35-character pool, length <= 12, x 3 configurations", exhaustive=False, bound=f"{nrand} strings, seed {ctx.seed}"),
+        "flag-histories": ctx.bounded(
+            "flag-histories",
+            rule="a parser is built with flag subset A and used on 24 probe formulas, then re-configured to subset B by (i) parser.set_feature_flags, "
+            "(ii) operator_resolver.set_feature_flags, or (iii) handing its used resolver to a new parser with B; every probe must then behave "
+            "exactly like a fresh parser with B (accept/reject and returned terms); all 64 ordered pairs (A, B) x 3 scenarios x intercept",
+            exhaustive=True,
+            bound="8 x 8 flag subsets, 24 probes",
+        ),
+        "python-fragments": ctx.bounded(
+            "python-fragments",
+            rule="valid Python expressions of many AST shapes (attribute / call / subscript chains on names, parenthesised expressions, subscripts, calls, "
+            "lambdas, literals; comprehensions, conditional expressions, starred and keyword arguments, f-strings, walrus, operators) in brace form and, "
+            "where the text has the name(...) shape, call form, in 17 positions (alone, left and right of ~, in sums, interactions, | parts, "
+            "parentheses, multistage brackets) x 3 configurations; same oracle as token-strings",
+            exhaustive=False,
+            bound="see rule",
+        ),
         "repetitions": ctx.bounded("repetitions", rule="every alphabet token and token pair repeated k times (bare, followed by a name, between names): exception types only", exhaustive=True, bound="k in " + ("(40, 400)" if th else "(40,)")),
     }
     totals, outcomes, found = {}, {}, {}
